@@ -193,6 +193,15 @@ func specParsed(p *FrameParser) bool {
 //@ modifies ghost ioFail
 
 //@ iface Source.Close
+//@ requires[C10.src.close.open]  selb(isOpen, ref(self))
+//@ ensures[ts.close]    !selb(isOpen, ref(self)) && sel(closeN, ref(self)) == old(sel(closeN, ref(self))) + 1
+//@ ensures[ts.frame]    forallint(h, h != ref(self) ==> selb(isOpen, h) == old(selb(isOpen, h)) && sel(closeN, h) == old(sel(closeN, h)))
+//@ ensures[src.exterr]  ret0 != nil ==> noRepoErr(ret0)
+//@ modifies ghost isOpen, ghost closeN
+
+//@ iface Source.SetPacketFilter
+//@ requires[C10.src.filter.open] selb(isOpen, ref(self))
+//@ ensures[src.exterr]  ret0 != nil ==> noRepoErr(ret0)
 //@ modifies nothing
 
 //@ iface Sink.WriteTo
@@ -201,7 +210,11 @@ func specParsed(p *FrameParser) bool {
 //@ modifies ghost wrN, ghost wrClock, ghost clock
 
 //@ iface Sink.Close
-//@ modifies nothing
+//@ requires[C10.sink.close.open] selb(isOpen, ref(self))
+//@ ensures[ts.close]    !selb(isOpen, ref(self)) && sel(closeN, ref(self)) == old(sel(closeN, ref(self))) + 1
+//@ ensures[ts.frame]    forallint(h, h != ref(self) ==> selb(isOpen, h) == old(selb(isOpen, h)) && sel(closeN, h) == old(sel(closeN, h)))
+//@ ensures[sink.exterr] ret0 != nil ==> noRepoErr(ret0)
+//@ modifies ghost isOpen, ghost closeN
 
 //@ func getClassicBPFFilter
 //@ safety C12
@@ -222,3 +235,30 @@ func specParsed(p *FrameParser) bool {
 //@ ensures[C11.alloc.bump]    int(curPacketID.v) == (int(old(curPacketID.v)) + int(maxTTL)) % 4294967296
 //@ lemma[C11.disjoint]        forall(c, 0, 4294967296, forall(m1, 1, 256, forall(d, 0, 65536, forall(m2, 1, 256, forall(t1, 1, m1+1, forall(t2, 1, m2+1, m1 + d + m2 < 65536 ==> (c + t1) % 65536 != (c + m1 + d + t2) % 65536))))))
 //@ modifies global curPacketID
+
+// ---- handle construction (C10). The two platform constructors sit directly on syscalls and are trusted to return
+// either an open handle or an error; NewSourceSink is verified against them.
+
+//@ assume func NewSinkLinux
+//@ trusted raw-socket constructor on top of unix.Socket/Setsockopt (syscalls are outside the verifier's reach)
+//@ ensures[ts.sink.new]  (ret1 == nil) == (ret0 != nil) && (ret1 == nil ==> fresh(ref(ret0)) && live(ref(ret0)) && selb(isOpen, ref(ret0)) && sel(closeN, ref(ret0)) == 0)
+//@ ensures[ts.sink.frame] forallint(h, (ret1 != nil || h != ref(ret0)) ==> selb(isOpen, h) == old(selb(isOpen, h)) && sel(closeN, h) == old(sel(closeN, h)))
+//@ ensures[sink.exterr]  ret1 != nil ==> noRepoErr(ret1)
+//@ modifies ghost isOpen, ghost closeN
+
+//@ assume func NewAFPacketSource
+//@ trusted AF_PACKET constructor on top of unix.Socket (syscalls are outside the verifier's reach)
+//@ ensures[ts.src.new]   (ret1 == nil) == (ret0 != nil) && (ret1 == nil ==> fresh(ref(ret0)) && live(ref(ret0)) && selb(isOpen, ref(ret0)) && sel(closeN, ref(ret0)) == 0)
+//@ ensures[ts.src.frame] forallint(h, (ret1 != nil || h != ref(ret0)) ==> selb(isOpen, h) == old(selb(isOpen, h)) && sel(closeN, h) == old(sel(closeN, h)))
+//@ ensures[src.exterr]   ret1 != nil ==> noRepoErr(ret1)
+//@ modifies ghost isOpen, ghost closeN
+
+//@ func NewSourceSink
+//@ safety C10
+//@ ensures[C10.nss.atom]   ret1 != nil ==> ret0.Source == nil && ret0.Sink == nil && !ret0.MustClosePort
+//@ ensures[C10.nss.ok]     ret1 == nil ==> ret0.Source != nil && ret0.Sink != nil && ref(ret0.Source) != ref(ret0.Sink) && selb(isOpen, ref(ret0.Source)) && selb(isOpen, ref(ret0.Sink)) && !ret0.MustClosePort
+//@ ensures[C10.nss.fresh]  ret1 == nil ==> !old(selb(isOpen, ref(ret0.Source))) && !old(selb(isOpen, ref(ret0.Sink)))
+//@ ensures[C10.nss.noleak] forallint(h, (ret1 != nil || (h != ref(ret0.Source) && h != ref(ret0.Sink))) && !old(selb(isOpen, h)) ==> !selb(isOpen, h))
+//@ ensures[C10.nss.others] forallint(h, old(selb(isOpen, h)) ==> selb(isOpen, h))
+//@ ensures[C10.nss.wrap]   ret1 != nil ==> noRepoErr(ret1)
+//@ modifies ghost isOpen, ghost closeN
